@@ -37,12 +37,13 @@ Theorem C22_same_sequence_committed :
 Proof. exact @same_sequence_committed. Qed.
 Print Assumptions C22_same_sequence_committed.
 
-(** A proposal that is handed a result was registered on that store under the
-    id of the entry whose application produced the result, and that entry
-    carries the command of this very proposal — for every trace of restarts,
+(** A proposal that is handed a result was registered on that store, for the
+    region and under the id of the entry whose application produced the result,
+    and that entry carries the command of this very proposal — for every trace of restarts,
     calls, deliveries and timeouts on any number of stores.  Premises: what is
-    assumed of raft ([election_safe]: a term has one leader and a restarted
-    store must win a later term; [entries_valid]: delivered entries were
+    assumed of raft ([election_safe]: within one region (raft group) a term has
+    one leader and a restarted store must win a later term — terms of different
+    regions are unrelated; [entries_valid]: delivered entries were
     created by some ProposeCommand) and the ranges of the 32+32 bit packing. *)
 Theorem C22_response_matches :
   forall (cmd resp sm : Type) (applier : sm -> cmd -> sm * option resp) (init_sm : sm) (tr : list (gevent cmd)),
@@ -53,22 +54,23 @@ Theorem C22_response_matches :
 Proof. exact @response_matches_run. Qed.
 Print Assumptions C22_response_matches.
 
-(** The ids under which proposals are registered are pairwise different across
-    stores and restarts (the content of the repair of F20). *)
+(** The (region, id) pairs under which proposals are registered are pairwise
+    different across stores and restarts (the content of the repairs of F20);
+    the ids alone are not — see [C22_premises_satisfiable_two_regions]. *)
 Theorem C22_ids_unique :
   forall (cmd resp sm : Type) (applier : sm -> cmd -> sm * option resp) (init_sm : sm) (tr : list (gevent cmd)),
     let g := grun applier init_sm (next_id (W := N)) tr in
     calls_small tr -> terms_ok (g_props g) -> election_safe (g_props g) ->
-    NoDup (map pr_id (g_props g)).
+    NoDup (map (fun pr => (pr_region pr, pr_id pr)) (g_props g)).
 Proof. exact @ids_unique_run. Qed.
 Print Assumptions C22_ids_unique.
 
 (** Answered once: completing a proposal removes its waiter; a later entry with
     the same id completes nobody. *)
 Theorem C22_answered_once :
-  forall (id : N) (p p' : pipe N) (w : N),
-    complete id p = (p', Some w) ->
-    lookup id (p_props p) = Some w /\ lookup id (p_props p') = None /\ p_seq p' = p_seq p /\
+  forall (region id : N) (p p' : pipe N) (w : N),
+    complete region id p = (p', Some w) ->
+    lookup (pkey region id) (p_props p) = Some w /\ lookup (pkey region id) (p_props p') = None /\ p_seq p' = p_seq p /\
     (forall id' w', lookup id' (p_props p') = Some w' -> lookup id' (p_props p) = Some w').
 Proof. exact complete_some. Qed.
 Print Assumptions C22_answered_once.
@@ -92,6 +94,37 @@ Theorem C22_premises_satisfiable :
   completions g 2 <> [] /\ completions g 1 = [].
 Proof. exact f20_fixed_hyps. Qed.
 Print Assumptions C22_premises_satisfiable.
+
+(** Finding F20, second half (commit b93c45d: ids carry the term, but the
+    waiters of all regions of a store were keyed by the id alone, and terms are
+    per region): a waiter registered for region 1 receives the result of an
+    entry of region 2 that carries the same id. *)
+Theorem C22_region_collision_refuted_before_fix :
+  exists (p1 p2 : pipe N) (w : N),
+    register_v1 1 (mk_id 2 1) w pipe_init = (RegOk, p1) /\
+    complete_v1 2 (mk_id 2 1) p1 = (p2, Some w).
+Proof. exact region_collision_refuted. Qed.
+Print Assumptions C22_region_collision_refuted_before_fix.
+
+(** With the region in the key, an entry of another region completes nobody. *)
+Theorem C22_other_region_completes_nobody :
+  forall r1 r2 id (w : N) (p p1 : pipe N),
+    r1 <> r2 -> id < 2^64 -> register r1 id w p = (RegOk, p1) ->
+    lookup (pkey r2 id) (p_props p) = None -> complete r2 id p1 = (p1, None).
+Proof. exact complete_other_region. Qed.
+Print Assumptions C22_other_region_completes_nobody.
+
+(** The premises of [C22_response_matches] hold on the two-region scenario
+    (stores 1 and 2 lead regions 1 and 2 in the same term number and hand out
+    the same id); store 1's caller is not answered by region 2's entry. *)
+Theorem C22_premises_satisfiable_two_regions :
+  let g := grun rapply ([] : rsm) (next_id (W := N)) two_region_trace in
+  calls_small two_region_trace /\ terms_ok (g_props g) /\ election_safe (g_props g) /\
+  entries_valid rapply ([] : rsm) (next_id (W := N)) two_region_trace /\
+  map pr_id (g_props g) = [mk_id 2 1; mk_id 2 1] /\
+  completions g 2 <> [] /\ completions g 1 = [].
+Proof. exact two_region_hyps. Qed.
+Print Assumptions C22_premises_satisfiable_two_regions.
 
 (** The oracle of the correspondence for "all stores agree on what sits at an
     index" decides its specification. *)
